@@ -16,7 +16,7 @@ RULE = ("two-stage runs: stage 1 builds the generated system fault-free, stage 2
 ASSUMPTIONS = wa.ASSUMPTIONS
 REAL_VS_STUB = wa.REAL_VS_STUB
 PROBES = wa.PROBES + ["atoms_supplied", "centres_supplied", "supplied_and_generated_in_one_system",
-                      "ignored_molecule_present", "ignored_molecule_not_last", "earlier_call_same_input_path", "pdb_input", "synthetic_centres", "ligand_placed_with_host"]
+                      "ignored_molecule_present", "ignored_molecule_not_last", "earlier_call_same_input_path", "pdb_input", "synthetic_centres", "ligand_placed_with_host", "resid_restart_inside_molecule", "split_with_supplied_atoms"]
 PROFILE = {"p_synth_centres": 0.25, "sol_p": 0.25, "p_pdb": 0.2, "p_pre_call": 0.3, "n_moltypes": (1, 3), "n_entries": (2, 4), "max_molecules": 8, "max_count": 3, "maxres": 7,
            "box_modes": ["cubic", "cubic", "noncubic", "density"], "faults": ["step", "start", "overlap"],
            "maxiter": [0, 1, 2, 800], "dilute_hint": True}
@@ -36,6 +36,23 @@ def gen_job(verif_seed, tier, index):
             job.pop("coord_text", None)
         job["two_stage"] = ok
         return job
+    if st.gen.random() < 0.06:
+        # diblock whose numbering starts again with the second block; the first block (of the first molecule) is
+        # supplied, the rest is built: residues of equal NUMBER on both sides of the cut
+        first_b = jobgen.make_restart_job(job, st.gen)
+        if first_b is not None:
+            ok = jobgen.add_coordinates(job, st.gen, PROFILE, cut_at_residue=first_b)
+            job["two_stage"] = ok
+            return job
+    if st.gen.random() < 0.15:
+        jobgen.add_resid_restart(job, st.gen)
+    if st.gen.random() < 0.08:
+        # -split together with an atom-level structure (whole residues supplied, the rest built)
+        ok = jobgen.add_coordinates(job, st.gen, dict(PROFILE, coord_modes=["prefix", "prefix", "full"], p_synth_centres=0.0))
+        if ok:
+            jobgen.add_split(job, st.gen)
+        job["two_stage"] = ok
+        return job
     ok = jobgen.add_coordinates(job, st.gen, PROFILE)
     job["two_stage"] = ok
     return job
@@ -44,6 +61,10 @@ def gen_job(verif_seed, tier, index):
 def _nt(j, r):
     if j.get("synthetic_centres"):
         r["probes"]["synthetic_centres"] = 1
+    if j["opts"].get("split"):
+        r["probes"]["split_with_supplied_atoms"] = 1
+    if j.get("resid_restart"):
+        r["probes"]["resid_restart_inside_molecule"] = 1
     if j.get("coord_ext") == "pdb":
         r["probes"]["pdb_input"] = 1
     return bool(j.get("coord_text")) and bool(j.get("expected_built"))
